@@ -26,6 +26,7 @@ def main(ctx):
             "bounds.memory_safety",
             "bounds.capacity_init",
             "own.store_roots",
+            "own.bucket_init",
             "own.handback",
             "typing.return_shape",
             "typing.kernel_typing",
